@@ -231,7 +231,7 @@ LEVEL_TEXT = ('Proof on the Gallina model of pre_parse, for all texts over the a
               'equalities of pre_parse outputs and hence of everything downstream (C12_tab_is_spaces, C12_outer_whitespace_irrelevant); any number of '
               'spaces in front of any line break of any text changes nothing (C12_trailing_spaces_irrelevant); multiplying '
               'all indentation of a cleaned text by any constant k >= 1 gives the same pre-parsed text, because the indentation pass is invariant '
-              'under any strictly monotone renumbering of the levels (C12_indent_scaling); a staircase of any height and any widths - lines with strictly growing indentation - is pre-parsed into as many nested blocks, so there is no depth at which nesting stops and no width beyond which indentation is read differently (C12_staircase_of_any_height; instances of up to 150 levels run on the implementation). The model is tied to parser.py by the pre stage '
+              'under any strictly monotone renumbering of the levels (C12_indent_scaling); a staircase of any height and any widths - lines with strictly growing indentation - is pre-parsed into as many nested blocks, so there is no depth at which nesting stops and no width beyond which indentation is read differently (C12_staircase_of_any_height; instances of up to 150 levels run on the implementation); and at the level of the document, through the whole pipeline model, a nest of hierarchical elements of any depth converts to the same document whatever strictly growing widths indent it (C12_nested_document_ignores_indentation_widths, from C04_hier_chain_converts). The model is tied to parser.py by the pre stage '
               '(exhaustive for short indentation sequences). Invariance under extra blank lines between lines is a property of the grammar (eol) '
               'and is decided end to end by metamorphic runs on the implementation, which also re-check the other transformations (partial).')
 LEVEL_NOTE = ('Trusted: Coq kernel, gen_tables_parser.py, hand model PreParse.v tied by differential run, extraction + driver. The nesting '
